@@ -367,8 +367,14 @@ class Lib:
                 return MatV(F('mtranspose', Mat, Mat)(base.term))
             if attr == 'ndim':
                 return Num(2)
+            if attr == 'flags':
+                from .libarraylike import mat_c_contig
+                return RecordV({'C_CONTIGUOUS': BoolV(mat_c_contig(base.term))})
             return LibRef('mat.' + attr, base)
         if isinstance(base, OpaqueV):
+            from . import libarraylike as AL
+            if AL.is_al(base):
+                return AL.getattr_al(run, base, attr)
             return LibRef('opaque.' + attr, base)
         if isinstance(base, RecordV):
             if attr in base.fields:
@@ -697,6 +703,8 @@ class Lib:
                 return T_isnone(other.term)
             if isinstance(other, OptArmV):
                 return other.term == OptArm.none
+            if isinstance(other, ArmV):
+                return F('arm_is_none', Arm, Bool)(other.term)     # arm labels are opaque: None-ness is a predicate
             if isinstance(other, (SeqV, MatV)):
                 if other.maybe_none:
                     return other.term == none_const(other.term.sort())
@@ -721,10 +729,14 @@ class Lib:
                     return z3.BoolVal(x.s in [i.s for i in o.items])
                 if isinstance(x, ArmV) and all(isinstance(i, ArmV) for i in o.items):
                     return z3.Or(*[x.term == i.term for i in o.items]) if o.items else z3.BoolVal(False)
-                if isinstance(x, (NoneV,)) or isinstance(x, Num):
-                    # `None in arms`, `np.nan in arms`, `np.inf in arms`: arm labels are an uninterpreted sort;
-                    # these validations are modelled as opaque predicates of the list
-                    pass
+                if isinstance(x, Num) and all(isinstance(i, ArmV) for i in o.items) and o.items:
+                    # `np.nan in [arm]`, `np.inf in [arm]`: predicates of the opaque label
+                    which = 'arm_is_nan' if z3.eq(x.term, NAN) else 'arm_is_inf'
+                    return z3.Or(*[F(which, Arm, Bool)(i.term) for i in o.items])
+            if isinstance(o, SeqO) and o.skind == 'A' and isinstance(x, (NoneV, Num)):
+                # `None in arms`, `np.nan in arms`, `np.inf in arms`
+                which = 'has_none' if isinstance(x, NoneV) else ('has_nan' if z3.eq(x.term, NAN) else 'has_inf')
+                return F(which, ASeq, Bool)(o.term)
         if isinstance(container, SeqV) and container.kind == 'A' and isinstance(x, ArmV):
             return T.amem(container.term, x.term)
         if isinstance(container, LibRef) and container.name == 'dictview.keys' and isinstance(x, ArmV):
@@ -733,7 +745,9 @@ class Lib:
 
     # ------------------------------------------------------------------------------------- calls
     def call(self, run, name, recv, args, kwargs, node=None):
-        from . import libcalls, liblinalg, libml      # noqa: registration of the call table
+        from . import libcalls, liblinalg, libml, libarraylike      # noqa: registration of the call table
+        if name.startswith('exc.'):
+            return OpaqueV(fresh('exc', Opaque), 'exc:' + name[4:])     # an exception object (only its class matters)
         h = libcalls.TABLE.get(name)
         if h is None:
             # method tables by receiver kind
